@@ -66,8 +66,10 @@ class Spelling:
         self.force = force or {}
         self.rand_kinds = set(rand_kinds)
         self.used = {}
+        self.nopts = {}
 
     def pick(self, kind, options):
+        self.nopts[kind] = max(self.nopts.get(kind, 0), len(options))
         if kind in self.force:
             r = options[self.force[kind] % len(options)]
         elif self.mode == 'canon' and kind not in self.rand_kinds:
@@ -79,6 +81,8 @@ class Spelling:
 
     def perm(self, kind, items):
         items = list(items)
+        if len(items) > 1:
+            self.nopts[kind] = max(self.nopts.get(kind, 0), len(items))
         if self.mode == 'canon' and kind not in self.force:
             return items
         if kind in self.force:
